@@ -183,15 +183,25 @@ pub fn explore_c15(unit_seed: u64, tier: Tier) -> UnitReport {
     let mut rep = UnitReport::default();
     let mut rng = Rng::new(unit_seed);
     let lim = c15_limits(tier, &mut rng);
-    let (fam, m) = generate::gen_model(&mut rng, &C15_WEIGHTS, &lim);
-    let truth = truth_of(&m);
-    let mh = model_hash(&m);
+    let (fam, mut m) = generate::gen_model(&mut rng, &C15_WEIGHTS, &lim);
     let front = if rng.chance(1, 4) {
         Entry::BuilderMicrolp
     } else {
         Entry::MilpWith
     };
     let gap = pick_gap(&mut rng);
+    // A relative gap is most sensitive where the objective is close to zero: with a
+    // positive gap, half of the models get a constant offset that moves the optimum next
+    // to zero (oracle-guided), from either side.
+    if gap.allowed() > 0.0 && m.sense != crate::model::Sense::Satisfy && rng.chance(1, 2) {
+        if let Verdict::Optimal(opt) = truth_of(&m) {
+            let shift = *rng.pick(&[-3.0, -2.0, -1.0, -0.5, 0.5, 1.0, 2.0, 3.0]);
+            m.offset = m.offset - opt.to_f64().round() + shift;
+            rep.count("probe:offset-moves-optimum-next-to-zero");
+        }
+    }
+    let truth = truth_of(&m);
+    let mh = model_hash(&m);
     let budget = read_budget(&m);
     rep.count(&format!("family:{}", fam.name()));
     rep.count(&format!("front-door:{}", front.name()));
@@ -711,6 +721,12 @@ pub fn explore_c07(unit_seed: u64, _tier: Tier) -> UnitReport {
         rep.add("probe:piecewise-row-with-tightening", p.piecewise_reverse_applied);
         rep.add("expression-ranges-checked", p.exprs_checked);
         rep.add("expression-points-evaluated", p.expr_points_checked);
+        if p.oracle_unavailable {
+            rep.count("probe:exact-range-oracle-unavailable(overflow)");
+        }
+        if p.published_box_checked {
+            rep.count("published-box-checks");
+        }
         if p.linearize_ok {
             rep.count("linearize:ok");
         }
